@@ -52,6 +52,7 @@ type irCall struct {
 	Fmt   string
 	Ty    string
 	NArgs int
+	Guard string // optional Lean Bool term (same arguments): when false the Go call panics (nil dereference …)
 }
 
 // irLet is one generated `let Var : Ty := Fmt`.
@@ -82,6 +83,7 @@ type irSpec struct {
 	Conv        map[string]irCall     // "int:Nat64" (conversion ":" argument type)
 	Index       map[string]irCall     // by collection type: x[i]
 	IndexSet    map[string]string     // by collection type: Fmt(x, i, v) = updated collection
+	FieldSet    map[string]string     // "T.goField" → Lean structure field, for writes through `&xs[i]`
 	SliceFrom   map[string]irCall     // by type: x[n:]
 	StmtMethods map[string]irStmtCall // "T.m" used as a statement
 	StmtFuncs   map[string]irStmtCall // printed callee used as a statement
@@ -100,6 +102,15 @@ type irVar struct {
 	Ty    string
 	Depth int
 	Param bool // bound by the definition's binders, not a local
+	Alias *irAlias
+}
+
+// irAlias: `b := &xs[i]` — b is a pointer into a tracked collection. Reads go through the current
+// value of the collection, writes (`b.f = v`, `b.f++`, `*b = v`) update the collection.
+type irAlias struct {
+	CollKey string // environment key of the collection
+	Idx     string // Lean name holding the index (evaluated when the alias was taken)
+	ElemTy  string
 }
 
 type irEnv struct {
@@ -164,6 +175,7 @@ type irT struct {
 	aux     []string
 	nloop   int
 	ntmp    int
+	guards  []string // pending guards of partial calls in the statement being translated
 	loop    *irLoopCtx
 	inLoop  bool
 }
@@ -310,6 +322,9 @@ func (t *irT) applyCall(c irCall, recv *irTerm, args []ast.Expr, env *irEnv, wha
 		}
 		ss = append(ss, as...)
 	}
+	if c.Guard != "" {
+		t.guards = append(t.guards, irFmt(c.Guard, ss))
+	}
 	return irTerm{irFmt(c.Fmt, ss), c.Ty}, nil
 }
 
@@ -337,6 +352,14 @@ func (t *irT) expr(e ast.Expr, env *irEnv) (irTerm, error) {
 		}
 	case *ast.Ident:
 		if v, ok := env.vars[x.Name]; ok {
+			if v.Alias != nil {
+				coll := env.vars[v.Alias.CollKey]
+				f, ok := t.spec.Index[coll.Ty]
+				if !ok {
+					return irTerm{}, fmt.Errorf("indexing of %s not configured (alias %s)", coll.Ty, x.Name)
+				}
+				return irTerm{irFmt(f.Fmt, []string{coll.Lean, v.Alias.Idx}), f.Ty}, nil
+			}
 			return irTerm{v.Lean, v.Ty}, nil
 		}
 		switch x.Name {
@@ -373,6 +396,8 @@ func (t *irT) expr(e ast.Expr, env *irEnv) (irTerm, error) {
 			return irTerm{}, err
 		}
 		switch {
+		case x.Op == token.AND: // &x: only as an argument of a configured call; the type records it
+			return irTerm{s.S, "&" + s.Ty}, nil
 		case x.Op == token.SUB && (s.Ty == "Int" || s.Ty == "lit"):
 			return irTerm{"(-" + s.S + ")", "Int"}, nil
 		case x.Op == token.NOT && s.Ty == "Bool":
@@ -415,6 +440,14 @@ func (t *irT) expr(e ast.Expr, env *irEnv) (irTerm, error) {
 		return irTerm{irFmt(f.Fmt, []string{c.S, lo.S}), f.Ty}, nil
 	}
 	return irTerm{}, fmt.Errorf("unsupported expression %s", t.r.Src(e))
+}
+
+// tryExpr translates speculatively: guards of partial calls met on the way are discarded.
+func (t *irT) tryExpr(e ast.Expr, env *irEnv) (irTerm, error) {
+	ng := len(t.guards)
+	x, err := t.expr(e, env)
+	t.guards = t.guards[:ng]
+	return x, err
 }
 
 func irInEnv(env *irEnv, name string) bool { _, ok := env.vars[name]; return ok }
@@ -522,20 +555,26 @@ func (t *irT) call(x *ast.CallExpr, env *irEnv) (irTerm, error) {
 		}
 		return irTerm{}, fmt.Errorf("conversion %s of %s not configured (%s)", fun, a.Ty, t.r.Src(x))
 	}
-	// methods: the receiver expression is rooted in a variable, and "T.m" is configured
-	if se, ok := x.Fun.(*ast.SelectorExpr); ok && irRootInEnv(se.X, env) {
+	// methods: the receiver expression translates and "T.m" is configured
+	if se, ok := x.Fun.(*ast.SelectorExpr); ok {
+		rooted := irRootInEnv(se.X, env)
+		ng := len(t.guards)
 		rx, err := t.expr(se.X, env)
-		if err != nil {
+		if err == nil {
+			if m, ok := t.spec.Methods[rx.Ty+"."+se.Sel.Name]; ok {
+				return t.applyCall(m, &rx, x.Args, env, fun)
+			}
+			if rooted {
+				return irTerm{}, fmt.Errorf("unknown method %s.%s (in %s)", rx.Ty, se.Sel.Name, t.r.Src(x))
+			}
+		} else if rooted {
 			return irTerm{}, fmt.Errorf("unsupported call %s (%v)", t.r.Src(x), err)
 		}
-		if m, ok := t.spec.Methods[rx.Ty+"."+se.Sel.Name]; ok {
-			return t.applyCall(m, &rx, x.Args, env, fun)
-		}
-		return irTerm{}, fmt.Errorf("unknown method %s.%s (in %s)", rx.Ty, se.Sel.Name, t.r.Src(x))
+		t.guards = t.guards[:ng] // a failed attempt leaves no guard behind
 	}
 	// functions, optionally dispatched on the first argument's type
 	if len(x.Args) >= 1 {
-		if a, err := t.expr(x.Args[0], env); err == nil {
+		if a, err := t.tryExpr(x.Args[0], env); err == nil {
 			if f, ok := t.spec.Funcs[fun+":"+a.Ty]; ok {
 				return t.applyCall(f, nil, x.Args, env, fun)
 			}
@@ -690,8 +729,15 @@ func (t *irT) lhsKey(e ast.Expr, env *irEnv) (string, error) {
 			return "", nil
 		}
 		return x.Name, nil
+	case *ast.StarExpr:
+		if a := irAliasOf(x.X, env); a != nil {
+			return a.CollKey, nil
+		}
 	case *ast.SelectorExpr:
-		rx, err := t.expr(x.X, env)
+		if a := irAliasOf(x.X, env); a != nil {
+			return a.CollKey, nil
+		}
+		rx, err := t.tryExpr(x.X, env)
 		if err != nil {
 			return "", err
 		}
@@ -713,6 +759,23 @@ func (t *irT) assigned(b []ast.Stmt, outer *irEnv, set map[string]bool) {
 			set[k] = true
 		}
 	}
+	localAlias := map[string]string{}
+	aliasTarget := func(l ast.Expr) (string, bool) {
+		var root ast.Expr
+		switch tl := irUnparen(l).(type) {
+		case *ast.StarExpr:
+			root = tl.X
+		case *ast.SelectorExpr:
+			root = tl.X
+		default:
+			return "", false
+		}
+		if id, ok := irUnparen(root).(*ast.Ident); ok {
+			k, ok := localAlias[id.Name]
+			return k, ok
+		}
+		return "", false
+	}
 	var walkStmt func(s ast.Stmt)
 	walk := func(l []ast.Stmt) {
 		for _, s := range l {
@@ -725,18 +788,37 @@ func (t *irT) assigned(b []ast.Stmt, outer *irEnv, set map[string]bool) {
 		}
 		switch x := s.(type) {
 		case *ast.AssignStmt:
+			// b := &xs[i] declared inside b: later writes through b are writes to xs
+			if x.Tok == token.DEFINE && len(x.Lhs) == 1 && len(x.Rhs) == 1 {
+				if ue, ok := x.Rhs[0].(*ast.UnaryExpr); ok && ue.Op == token.AND {
+					if ie, ok := irUnparen(ue.X).(*ast.IndexExpr); ok {
+						if id, ok := x.Lhs[0].(*ast.Ident); ok {
+							if k, err := t.lhsKey(ie.X, outer); err == nil {
+								localAlias[id.Name] = k
+							}
+						}
+					}
+				}
+			}
 			for _, l := range x.Lhs {
-				if k, err := t.lhsKey(l, outer); err == nil {
+				if k, ok := aliasTarget(l); ok {
+					add(k)
+				} else if k, err := t.lhsKey(l, outer); err == nil {
 					add(k)
 				}
 			}
 		case *ast.IncDecStmt:
-			if k, err := t.lhsKey(x.X, outer); err == nil {
+			if k, ok := aliasTarget(x.X); ok {
+				add(k)
+			} else if k, err := t.lhsKey(x.X, outer); err == nil {
 				add(k)
 			}
 		case *ast.ExprStmt:
 			if ce, ok := x.X.(*ast.CallExpr); ok {
-				if sc, args, err := t.stmtCall(ce, outer); err == nil {
+				ng := len(t.guards)
+				sc, args, err := t.stmtCall(ce, outer)
+				t.guards = t.guards[:ng]
+				if err == nil {
 					for _, l := range sc.Lets {
 						name := irFmt(l.Var, args)
 						if k, ok := outer.keyOfLean(name); ok {
@@ -774,7 +856,7 @@ func (t *irT) stmtCall(ce *ast.CallExpr, env *irEnv) (irStmtCall, []string, erro
 	var args []string
 	found := false
 	if se, ok := ce.Fun.(*ast.SelectorExpr); ok {
-		if rx, err := t.expr(se.X, env); err == nil {
+		if rx, err := t.tryExpr(se.X, env); err == nil {
 			if m, ok := t.spec.StmtMethods[rx.Ty+"."+se.Sel.Name]; ok {
 				sc, found = m, true
 				args = append(args, rx.S)
@@ -889,7 +971,35 @@ func irZero(ty string) (string, bool) {
 	return "", false
 }
 
+// stmt translates one statement. Guards of partial calls (irCall.Guard) evaluated by the statement
+// are checked right after its bindings: `if guard then <rest> else <Panic>` (Lean is pure, so the
+// order of the binding and the test does not matter).
 func (t *irT) stmt(s ast.Stmt, env *irEnv, ind string, next irNext) (string, error) {
+	if len(t.guards) != 0 {
+		return "", fmt.Errorf("partial call in an unsupported position before %s", t.r.Src(s))
+	}
+	guarded := func(rest func(ind string) (string, error), ind string) (string, error) {
+		g := t.guards
+		t.guards = nil
+		if len(g) == 0 {
+			return rest(ind)
+		}
+		if t.spec.Panic == "" {
+			return "", fmt.Errorf("partial call but panic not configured: %s", t.r.Src(s))
+		}
+		r, err := rest(ind + "  ")
+		if err != nil {
+			return "", err
+		}
+		return fmt.Sprintf("%sif %s then\n%s%selse\n%s  %s\n", ind, strings.Join(g, " && "), r, ind, ind, t.wrapRet(t.spec.Panic)), nil
+	}
+	switch s.(type) {
+	case *ast.AssignStmt, *ast.IncDecStmt, *ast.DeclStmt, *ast.ExprStmt:
+		inner := next
+		next = func(env2 *irEnv, ind string) (string, error) {
+			return guarded(func(ind string) (string, error) { return inner(env2, ind) }, ind)
+		}
+	}
 	if t.ignorable(s) {
 		t.skipped = append(t.skipped, t.r.Src(s))
 		return next(env, ind)
@@ -963,7 +1073,7 @@ func (t *irT) stmt(s ast.Stmt, env *irEnv, ind string, next irNext) (string, err
 		if err != nil {
 			return "", fmt.Errorf("%v (%s)", err, t.r.Src(s))
 		}
-		return ind + t.wrapRet(r) + "\n", nil
+		return guarded(func(ind string) (string, error) { return ind + t.wrapRet(r) + "\n", nil }, ind)
 	case *ast.BranchStmt:
 		if x.Label != nil || t.loop == nil {
 			break
@@ -1066,6 +1176,41 @@ func (t *irT) assign(x *ast.AssignStmt, env *irEnv, ind string, next irNext) (st
 	if len(x.Lhs) != len(x.Rhs) {
 		return "", fmt.Errorf("unsupported assignment %s", t.r.Src(x))
 	}
+	// b := &xs[i]: pointer into a tracked collection
+	if define && len(x.Lhs) == 1 {
+		if ue, ok := x.Rhs[0].(*ast.UnaryExpr); ok && ue.Op == token.AND {
+			ie, ok1 := irUnparen(ue.X).(*ast.IndexExpr)
+			id, ok2 := x.Lhs[0].(*ast.Ident)
+			if !ok1 || !ok2 || irInEnv(env, id.Name) {
+				return "", fmt.Errorf("unsupported pointer %s", t.r.Src(x))
+			}
+			ck, err := t.lhsKey(ie.X, env)
+			if err != nil {
+				return "", err
+			}
+			coll, ok := env.vars[ck]
+			if !ok {
+				return "", fmt.Errorf("pointer into untracked collection %s", t.r.Src(x))
+			}
+			f, ok := t.spec.Index[coll.Ty]
+			if !ok {
+				return "", fmt.Errorf("indexing of %s not configured (%s)", coll.Ty, t.r.Src(x))
+			}
+			idx, err := t.expr(ie.Index, env)
+			if err != nil {
+				return "", err
+			}
+			ity := idx.Ty
+			if ity == "lit" {
+				ity = "Int"
+			}
+			iname := irIdent(id.Name) + "_idx__"
+			out := fmt.Sprintf("%slet %s : %s := %s\n", ind, iname, t.leanTy(ity), idx.S)
+			env = env.with(id.Name, irVar{Lean: iname, Ty: ity, Depth: env.depth, Alias: &irAlias{CollKey: ck, Idx: iname, ElemTy: f.Ty}})
+			r, err := next(env, ind)
+			return out + r, err
+		}
+	}
 	// parallel assignment: evaluate all right-hand sides first when there are several
 	var rhss []irTerm
 	for _, r := range x.Rhs {
@@ -1133,6 +1278,40 @@ func (t *irT) assign(x *ast.AssignStmt, env *irEnv, ind string, next irNext) (st
 			}
 			rhs = v
 		}
+		// writes through a pointer into a collection
+		var al *irAlias
+		field := ""
+		switch tl := irUnparen(l).(type) {
+		case *ast.StarExpr:
+			al = irAliasOf(tl.X, env)
+		case *ast.SelectorExpr:
+			al, field = irAliasOf(tl.X, env), tl.Sel.Name
+		}
+		if al != nil {
+			if define {
+				return "", fmt.Errorf("unsupported assignment %s", t.r.Src(x))
+			}
+			coll := env.vars[al.CollKey]
+			set, ok := t.spec.IndexSet[coll.Ty]
+			if !ok {
+				return "", fmt.Errorf("index assignment on %s not configured (%s)", coll.Ty, t.r.Src(x))
+			}
+			elem := rhs.S
+			if field != "" {
+				lf, ok := t.spec.FieldSet[al.ElemTy+"."+field]
+				if !ok {
+					return "", fmt.Errorf("field update %s.%s not configured (%s)", al.ElemTy, field, t.r.Src(x))
+				}
+				cur, err := t.expr(irUnparen(l).(*ast.SelectorExpr).X, env)
+				if err != nil {
+					return "", err
+				}
+				elem = fmt.Sprintf("{ %s with %s := %s }", cur.S, lf, rhs.S)
+			} else if rhs.Ty != al.ElemTy {
+				return "", fmt.Errorf("assignment of %s through *%s", rhs.Ty, al.ElemTy)
+			}
+			rhs = irTerm{irFmt(set, []string{coll.Lean, al.Idx, elem}), coll.Ty}
+		}
 		ls, env2, err := t.bind(k, define, rhs, env, ind)
 		if err != nil {
 			return "", err
@@ -1141,6 +1320,15 @@ func (t *irT) assign(x *ast.AssignStmt, env *irEnv, ind string, next irNext) (st
 	}
 	r, err := next(env, ind)
 	return out + r, err
+}
+
+func irAliasOf(e ast.Expr, env *irEnv) *irAlias {
+	if id, ok := irUnparen(e).(*ast.Ident); ok {
+		if v, ok := env.vars[id.Name]; ok {
+			return v.Alias
+		}
+	}
+	return nil
 }
 
 func irUnparen(e ast.Expr) ast.Expr {
